@@ -182,6 +182,28 @@ def run_container(ctx, pt):
     ctx.eq('C01/%s/prefix-of-longer-container' % a, r, ('ok', mdsha.md_hash(a, m, L)))
 
 
+def pts_longbits(tier):
+    pts = [(a, 1025, dl) for a in ALGS for dl in (3, 5)]
+    if tier == 'thorough':
+        pts += [(a, 4097, 1) for a in ALGS] + [(a, 16385, 7) for a in ('md4', 'md5', 'sha1', 'sha256')] + [(a, 8193, 7) for a in ('sha512', 'sha512_256')]
+    return pts
+
+
+def run_longbits(ctx, pt):
+    """explicit bit lengths that end inside the last byte of messages of more than 1024 (4096, 1 MiB worth of) blocks"""
+    a, nblk, dl = pt
+    B, cs = geom(a)
+    n = nblk * B // 8 + 3
+    m = (expander(4096, 61) * (n // 4096 + 1))[:n - 1] + b'\xff'
+    L = 8 * n - dl
+    exp = mdsha.md_hash(a, m, L)
+    ctx.eq('C01/%s/bit-length-digest/more-than-1024-blocks' % a, ctx.attempt(lambda: mk(a)(m, bitlen=L)), ('ok', exp))
+    if nblk == 1025:
+        ctx.eq('C01/%s/bit-length-digest/more-than-1024-blocks' % a, ctx.attempt(lambda: mk(a)(m + b'\xaa' * 70, bitlen=L)), ('ok', exp))
+        ctx.eq('C01/%s/bit-length-digest/more-than-1024-blocks' % a, ctx.attempt(lambda: mk(a)(m, bitlen=8 * n)), ('ok', ref(a, m)))
+        ctx.eq('C01/%s/bit-length-digest/more-than-1024-blocks' % a, ctx.attempt(lambda: mk(a)(m, bitlen=8 * n - 8)), ('ok', ref(a, m[:-1])))
+
+
 def pts_reject(tier):
     pts = []
     for a in ALGS:
@@ -307,6 +329,8 @@ def subchecks():
             bound='messages of 1-2 blocks whose words sum to zero modulo 2^w (random words + negated sum, two top-bit words, 1 and all-ones) with and without a tail and shifted by one byte; thorough: one MD4/MD5 message of more than 1 MiB'),
         Sub('container', pts_container, run_container, engine='P',
             bound='bit length L near every boundary, container 1 byte / 1 block longer than ceil(L/8)'),
+        Sub('long-bit-lengths', pts_longbits, run_longbits, engine='P', exhaustive=False, chunk=1,
+            bound='10 algorithms x messages of 1025 blocks + 3 bytes with explicit bit lengths 8n-3, 8n-5, 8n, 8n-8, exact and longer containers (thorough: 4097 blocks for all, 16385 / 8193 blocks = more than 1 MiB for 6 algorithms)'),
         Sub('reject', pts_reject, run_reject, engine='P', bound='bitlen = 8|M| + {1,7,8,B} for |M| in {0,1,B/8-cs/8,B/8}'),
         Sub('first-use-order', pts_firstuse, run_firstuse, engine='H', chunk=1,
             bound='every pair (configuration used first in a fresh process, algorithm): 23 first uses (each of the 10 algorithms with a bit length, every BLAKE / Blake2 size, HMAC over SHA-512/224 and MD5, SHA3-384, objects constructed but never called, an unfinished update) x 10 algorithms, byte and bit-length call vs reference'),
